@@ -64,7 +64,7 @@ Init ==
   /\ hist = <<>>
   /\ aeadLog = {}
   /\ pool = {}
-  /\ cnt = [d |-> 0, sI |-> 0, sR |-> 0, bad |-> BadBudget, set |-> SetBudget, rk |-> RekeyBudget, big |-> BigBudget]
+  /\ cnt = [d |-> 0, sI |-> 0, sR |-> 0, bad |-> BadBudget, set |-> SetBudget, rk |-> RekeyBudget, big |-> BigBudget, hook |-> FALSE]
   /\ seq = [id \in Ids |-> <<>>]
 
 Tick == cnt.d < Depth
@@ -124,8 +124,9 @@ DeliverBad(id) ==
 
 SetNonce(id) ==
   /\ Tick /\ cnt.set > 0 /\ Stateful
-  /\ \E n \in NonceChoices : TrSetRecvNonce(id, n) \/ HookSetSendNonce(id, n)
-  /\ cnt' = [cnt EXCEPT !.d = @ + 1, !.set = @ - 1]
+  /\ \E n \in NonceChoices :
+       \/ TrSetRecvNonce(id, n) /\ cnt' = [cnt EXCEPT !.d = @ + 1, !.set = @ - 1]
+       \/ HookSetSendNonce(id, n) /\ cnt' = [cnt EXCEPT !.d = @ + 1, !.set = @ - 1, !.hook = TRUE]
   /\ UNCHANGED <<pool, seq>>
 
 mk1 == Atom("mk1", 32)
@@ -202,7 +203,7 @@ OneWayRule ==
     /\ (hist[i].op \in {"t_read", "s_read"} /\ hist[i].ep = "I") => (IsErr(i) /\ "T_ONEWAY" \in hist[i].exp.causes)
 
 NoNonceReuseT ==   \* C06 in transport: unless the application itself repeats a nonce (stateless) or moves the counter back (hook)
-  (Stateful /\ cnt.set = SetBudget) => NoNonceReuse
+  (Stateful /\ ~cnt.hook) => NoNonceReuse
 
 InvT == /\ OnlyPeerAccepted /\ InOrderOnce /\ RejectIsNoOp /\ StepsByOne /\ ExhaustedFails /\ OneWayRule
         /\ NoNonceReuseT
@@ -216,6 +217,6 @@ EmitEdge ==
                                         prm |-> [oneway |-> OneWayT, stateful |-> Stateful, noncemode |-> NonceMode],
                                         \* whether the (key, nonce) uniqueness predicate applies to the observed
                                         \* encryptions: not when the application itself chose/moved the nonces
-                                        noreuse |-> (Stateful /\ cnt'.set = SetBudget),
+                                        noreuse |-> (Stateful /\ ~cnt'.hook),    \* a RECEIVING nonce setting never excuses a reuse
                                         steps |-> hist'])>>)
 =============================================================================
